@@ -5,6 +5,7 @@ import GramModel.Oracle
 import GramModel.Lemmas.StoreCtx
 import GramModel.Lemmas.Rebase
 import GramModel.Lemmas.CtxWrap
+import GramModel.Lemmas.CtxWrapS
 
 /-!
 # C18 — checking under a context matches the closed program; contexts are restored
@@ -627,3 +628,216 @@ store-layer model was written from. -/
 def C18_checker_event_traces_tie_stmt : Prop := Generated.eventTraces = expectedEventTraces
 theorem C18_checker_event_traces_tie : C18_checker_event_traces_tie_stmt := by
   unfold C18_checker_event_traces_tie_stmt; decide +kernel
+
+/-! # Whole parameter contexts for gram's OWN checker (`inferS`: state-passing, hole cells)
+
+`Lemmas/CtxWrapS.lean`.  The whole-context theorems above are about the independent checker `inferX`; these are about the
+store-layer model of `type_check_rec` itself.  `pushParamsS f ps` is the program "for each parameter in turn, outermost
+first: check its domain, require its type to be `type` (else report one diagnostic and go on), push `(A', 0)` / `none`",
+the `i`-th of `n` domains being checked with fuel `f + (n - i)` — exactly the fuel `inferS (f + n)` gives it. -/
+
+section WholeContextS
+open CtxWrap CtxWrapS
+
+/-- **Pi wrap.**  Checking `(x : A) -> B` is: check `A`, require its type to be `type`, push `(A', 0)` / `none`, check
+`B`, require its type to be `type` (still under the extended contexts), pop — nothing else. -/
+def C18_pi_wrap_S_stmt : Prop :=
+  ∀ (f : Nat) (x : Name) (im : Bool) (A B : Tm) (s : St),
+    inferS (f+1) (.pi x im A B) s =
+      (do
+        let (d', dty) ← inferS f A
+        if !(← unifyS f dty .type) then reportError
+        pushCtx (d', 0) none
+        let (c', cty) ← inferS f B
+        if !(← unifyS f cty .type) then reportError
+        popCtx
+        pure (Tm.pi x im d' c', Tm.type)) s
+theorem C18_pi_wrap_S : C18_pi_wrap_S_stmt := by
+  intro f x im A B s
+  rfl
+
+/-- **One-definition group.**  Checking `x : A = d; b` is: push `(A, 1)` / `some (d, 1)` (annotation and definition as
+written), then — under the pushed entry — check `A` (its type must be `type`), check `d` (its type must unify with `A`),
+check `b`; the type is `letTypeS` of the body's type (the group re-wrapped around it by `open`); pop.  (Fuel: the group
+takes one unit, the list of definitions one more, its end a third.) -/
+def C18_let1_wrap_S_stmt : Prop :=
+  ∀ (f : Nat) (x : Name) (A d b : Tm) (s : St),
+    inferS (f+3) (.letg (.cons x A d .nil) b) s =
+      (do
+        pushCtx (A, 1) (some (d, 1))
+        let (_, annTy) ← inferS (f+1) A
+        if !(← unifyS (f+1) annTy .type) then reportError
+        let (d', dty) ← inferS (f+1) d
+        if !(← unifyS (f+1) dty A) then reportError
+        let (b', bty) ← inferS (f+2) b
+        let ty ← letTypeS (f+2) (.cons x A d' .nil) 1 0 bty
+        popCtx
+        pure (Tm.letg (.cons x A d' .nil) b', ty)) s
+theorem C18_let1_wrap_S : C18_let1_wrap_S_stmt := by
+  intro f x A d b s
+  rw [let1_wrap_S]
+
+/-- what `pushParamsS` is, one parameter at a time -/
+def C18_pushParamsS_eq_stmt : Prop :=
+  ∀ (f : Nat) (x : Name) (im : Bool) (A : Tm) (ps : Params),
+    pushParamsS f [] = pure [] ∧
+    pushParamsS f ((x, im, A) :: ps) =
+      (do
+        let (d', dty) ← inferS (f + ps.length) A
+        if !(← unifyS (f + ps.length) dty .type) then reportError
+        pushCtx (d', 0) none
+        let ps' ← pushParamsS f ps
+        pure ((x, im, d') :: ps'))
+theorem C18_pushParamsS_eq : C18_pushParamsS_eq_stmt := by
+  intro f x im A ps
+  exact ⟨rfl, rfl⟩
+
+/-- **Whole parameter contexts, as an equation of computations.**  Checking `(x₁ : A₁) => … => (xₙ : Aₙ) => t` with
+fuel `f + n` **is**: push the parameters one by one (checking each domain), check the open `t` with fuel `f`, pop `n`
+times, rebuild the function and its type `(x₁ : A₁') -> … -> (xₙ : Aₙ') -> T` — same value, same diagnostics, same final
+store, same out-of-fuel / panic outcome, from every state. -/
+def C18_params_wrap_S_stmt : Prop :=
+  ∀ (f : Nat) (ps : Params) (t : Tm) (s : St),
+    inferS (f + ps.length) (closeParams ps t) s =
+      (do
+        let ps' ← pushParamsS f ps
+        let (t', T) ← inferS f t
+        popN ps.length
+        pure (closeParams ps' t', closePi ps' T)) s
+theorem C18_params_wrap_S : C18_params_wrap_S_stmt := by
+  intro f ps t s
+  rw [params_wrap_S]
+
+/-- **The closed run computed from the open run.**  Once the parameters are pushed (state `s1`; elaboration returns
+the domains unchanged and the contexts are `pushParams ps` over the caller's), the run on the closed function is the
+run on the open body from `s1`, re-wrapped, with the caller's two contexts put back and every other component of the
+final state (store, diagnostics) the open run's. -/
+def C18_params_closed_run_S_stmt : Prop :=
+  ∀ (f : Nat) (ps ps' : Params) (t : Tm) (s s1 : St),
+    pushParamsS f ps s = .ok ps' s1 →
+    (ps' = ps ∧ (s1.tctx, s1.dctx) = pushParams ps (s.tctx, s.dctx)) ∧
+    inferS (f + ps.length) (closeParams ps t) s =
+      match inferS f t s1 with
+      | .ok (t', B) s2 =>
+          .ok (closeParams ps t', closePi ps B) { s2 with tctx := s.tctx, dctx := s.dctx }
+      | .fuel => .fuel
+      | .panic p => .panic p
+theorem C18_params_closed_run_S : C18_params_closed_run_S_stmt := by
+  intro f ps ps' t s s1 h
+  exact ⟨pushParamsS_ok f ps s ps' s1 h, closed_run h⟩
+
+/-- **Checking under a context of parameters = checking the closed function, gram's own checker.**  If every domain
+check succeeds without reporting (`pushParamsS` ends in `s1` with the diagnostics count unchanged), then: `s1` carries
+the parameters on top of the caller's contexts; the closed function is accepted without a diagnostic iff the open term
+is, from `s1`; the reported types are related by `closePi` (the elaborated terms by `closeParams`), with the same
+number of diagnostics and the same final store in every case; out-of-fuel and panic outcomes coincide; and after either
+run the contexts of its caller are exactly as before (`C18_infer_restores`). -/
+def C18_params_verdict_S_stmt : Prop :=
+  ∀ (f : Nat) (ps : Params) (t : Tm) (s s1 : St) (ps' : Params),
+    pushParamsS f ps s = .ok ps' s1 → s1.nerrs = s.nerrs →
+    (ps' = ps ∧ (s1.tctx, s1.dctx) = pushParams ps (s.tctx, s.dctx)) ∧
+    ((∃ e T s', inferS (f + ps.length) (closeParams ps t) s = .ok (e, T) s' ∧ s'.nerrs = s.nerrs) ↔
+     (∃ t' B s2, inferS f t s1 = .ok (t', B) s2 ∧ s2.nerrs = s1.nerrs)) ∧
+    (∀ e T s', inferS (f + ps.length) (closeParams ps t) s = .ok (e, T) s' →
+      ∃ t' B s2, inferS f t s1 = .ok (t', B) s2 ∧ e = closeParams ps t' ∧ T = closePi ps B ∧
+        s'.nerrs = s2.nerrs ∧ s'.store = s2.store) ∧
+    (∀ t' B s2, inferS f t s1 = .ok (t', B) s2 →
+      ∃ s', inferS (f + ps.length) (closeParams ps t) s = .ok (closeParams ps t', closePi ps B) s' ∧
+        s'.nerrs = s2.nerrs ∧ s'.store = s2.store) ∧
+    ((inferS (f + ps.length) (closeParams ps t) s = .fuel ↔ inferS f t s1 = .fuel) ∧
+     (∀ p, inferS (f + ps.length) (closeParams ps t) s = .panic p ↔ inferS f t s1 = .panic p)) ∧
+    (∀ e T s', inferS (f + ps.length) (closeParams ps t) s = .ok (e, T) s' →
+      s'.tctx = s.tctx ∧ s'.dctx = s.dctx) ∧
+    (∀ t' B s2, inferS f t s1 = .ok (t', B) s2 → s2.tctx = s1.tctx ∧ s2.dctx = s1.dctx)
+theorem C18_params_verdict_S : C18_params_verdict_S_stmt := by
+  intro f ps t s s1 ps' h hn
+  obtain ⟨h1, h2, h3, h4, h5, _, _⟩ := params_verdict_S f ps t s s1 ps' h hn
+  exact ⟨h1, h2, h3, h4, h5,
+    fun e T s' hc => C18_infer_restores _ _ e T s s' hc,
+    fun t' B s2 ho => C18_infer_restores _ _ t' B s1 s2 ho⟩
+
+/-- **Acceptance of the closed function, characterised** (no hypothesis; diagnostics are only ever added): the closed
+function is accepted without a diagnostic iff every domain check is (the parameters get pushed, nothing reported) and
+the open body is accepted without a diagnostic from the state with the parameters pushed. -/
+def C18_params_accept_iff_S_stmt : Prop :=
+  ∀ (f : Nat) (ps : Params) (t : Tm) (s : St),
+    (∃ e T s', inferS (f + ps.length) (closeParams ps t) s = .ok (e, T) s' ∧ s'.nerrs = s.nerrs) ↔
+    (∃ s1, pushParamsS f ps s = .ok ps s1 ∧ s1.nerrs = s.nerrs ∧
+      ∃ t' B s2, inferS f t s1 = .ok (t', B) s2 ∧ s2.nerrs = s1.nerrs)
+theorem C18_params_accept_iff_S : C18_params_accept_iff_S_stmt := by
+  intro f ps t s
+  exact params_accept_iff_S f ps t s
+
+/-! ## Non-vacuity (`inferS` runs, kernel-evaluated) -/
+
+/-- the state of a caller with nothing in scope, and the state with `a : type, x : a` pushed -/
+def c18ExS0 : St := {}
+def c18ExS1 : St := { tctx := [(.var 10 0, 0), (.type, 0)], dctx := [none, none] }
+
+-- `(a : type) => (x : a) => x` is accepted by gram's own checker, no diagnostic, with type `(a : type) -> (x : a) -> a`;
+-- the caller's contexts are untouched
+example :
+    (match inferS 12 (.lam 10 false .type (.lam 11 false (.var 10 0) (.var 11 0))) c18ExS0 with
+     | .ok (e, T) s' =>
+         e == .lam 10 false .type (.lam 11 false (.var 10 0) (.var 11 0)) &&
+         T == .pi 10 false .type (.pi 11 false (.var 10 0) (.var 10 1)) &&
+         s'.nerrs == 0 && s'.tctx == [] && s'.dctx == []
+     | _ => false) = true := by decide
+
+-- the open `x` under the pushed context `a : type, x : a`: accepted, no diagnostic, type `a`; contexts untouched
+example :
+    (match inferS 10 (.var 11 0) c18ExS1 with
+     | .ok (e, T) s' =>
+         e == .var 11 0 && T == .var 10 1 && s'.nerrs == 0 &&
+         s'.tctx == [(Tm.var 10 0, 0), (Tm.type, 0)] && s'.dctx == [none, none]
+     | _ => false) = true := by decide
+
+-- … and these are the two sides of `C18_params_verdict_S`: the closed term / type are `closeParams` / `closePi`
+example :
+    closeParams c18ExParams (.var 11 0) = .lam 10 false .type (.lam 11 false (.var 10 0) (.var 11 0)) ∧
+    closePi c18ExParams (.var 10 1) = .pi 10 false .type (.pi 11 false (.var 10 0) (.var 10 1)) := ⟨rfl, rfl⟩
+
+-- the hypotheses of `C18_params_verdict_S` hold: pushing `a : type, x : a` from the empty state succeeds, reports
+-- nothing, and ends in `c18ExS1`
+theorem c18ExPushS : pushParamsS 10 c18ExParams c18ExS0 = .ok c18ExParams c18ExS1 := rfl
+
+example : c18ExS1.nerrs = c18ExS0.nerrs := rfl
+
+-- hence (by the theorem, not by running the closed term) the closed function is accepted without a diagnostic
+example : ∃ e T s', inferS (10 + c18ExParams.length) (closeParams c18ExParams (.var 11 0)) c18ExS0 = .ok (e, T) s' ∧
+    s'.nerrs = c18ExS0.nerrs :=
+  (C18_params_verdict_S 10 c18ExParams (.var 11 0) c18ExS0 c18ExS1 c18ExParams c18ExPushS rfl).2.1.2
+    ⟨.var 11 0, .var 10 1, c18ExS1, rfl, rfl⟩
+
+-- same verdict on a rejected body: `x + 1` under `a : type, x : a` gets one diagnostic open, and one closed
+example :
+    (match inferS 10 (.bin .sum (.var 11 0) (.lit 1)) c18ExS1 with
+     | .ok (_, T) s' => T == .int && s'.nerrs == 1 && s'.tctx == c18ExS1.tctx && s'.dctx == c18ExS1.dctx
+     | _ => false) = true := by decide
+example :
+    (match inferS 12 (closeParams c18ExParams (.bin .sum (.var 11 0) (.lit 1))) c18ExS0 with
+     | .ok (_, T) s' => T == closePi c18ExParams .int && s'.nerrs == 1 && s'.tctx == [] && s'.dctx == []
+     | _ => false) = true := by decide
+
+-- a domain that is not a type: `(x : 5) => x` — the domain check reports, so the hypothesis of the verdict theorem
+-- fails, and so does acceptance of the closed function (one diagnostic), as `C18_params_accept_iff_S` says
+example :
+    (match pushParamsS 10 [(1, false, .lit 5)] c18ExS0 with
+     | .ok _ s1 => s1.nerrs == 1
+     | _ => false) = true := by decide
+example :
+    (match inferS 11 (closeParams [(1, false, .lit 5)] (.var 1 0)) c18ExS0 with
+     | .ok _ s' => s'.nerrs == 1 && s'.tctx == [] && s'.dctx == []
+     | _ => false) = true := by decide
+
+-- Π wrap and one-definition group: `(x : int) -> int : type`, `x : int = 5; x + 1 : int` (after `open`)
+example :
+    (match inferS 10 (.pi 1 false .int .int) c18ExS0 with
+     | .ok (_, T) s' => T == .type && s'.nerrs == 0 && s'.tctx == [] && s'.dctx == []
+     | _ => false) = true := by decide
+example :
+    (match inferS 10 (.letg (.cons 1 .int (.lit 5) .nil) (.bin .sum (.var 1 0) (.lit 1))) c18ExS0 with
+     | .ok (_, T) s' => T == .int && s'.nerrs == 0 && s'.tctx == [] && s'.dctx == []
+     | _ => false) = true := by decide
+
+end WholeContextS
